@@ -13,7 +13,7 @@ use oracle::{bch, tables};
 use serde_json::json;
 
 pub const ID: &str = "C04";
-pub const FAMS: [&str; 5] = ["cell", "auto-everything", "no-level-beyond-q", "option-walk", "cleanest-symbol-search"];
+pub const FAMS: [&str; 6] = ["cell", "auto-everything", "no-level-beyond-q", "option-walk", "cleanest-symbol-search", "forced-mode-outside-alphabet"];
 
 pub fn jobs(ctx: &Ctx) -> Vec<Job> {
     let caps = &ctx.caps;
@@ -89,6 +89,35 @@ pub fn jobs(ctx: &Ctx) -> Vec<Job> {
         let len = 1 + (mix(ctx.seed ^ 0xc1ea, k as u64) as usize) % caps.cap(v, level, class).max(1);
         jobs.push(Job { fam: FAMS[4], class, mode: Some(class), level: Some(level), version: Some(v), mask: None, len, gen: 0, seed: mix(ctx.seed, k as u64), ..Default::default() });
     }
+    // a forced mode whose alphabet does NOT contain the input: the crate documents an assertion failure there and no
+    // symbol is demanded; but IF a QR code is returned, what it reports must still be what it physically encodes and
+    // what the caller forced ("the ... mode ... reported on the returned QR code")
+    {
+        let mut rng = oracle::rng::Rng::new(ctx.seed ^ 0xf04);
+        for i in 0..ctx.tier.pick(600usize, ctx.scale(20_000)) {
+            k += 1;
+            let mode = i % 2;
+            let len = 1 + rng.below(40);
+            let mut p = crate::job::gen_payload(mode, len, rng.below(GEN_COUNT), rng.next_u64());
+            let foreign: &[u8] = if mode == 0 { b"A:/ az,\x00\xff-+Z$" } else { b"abcxyz,;!_\x00\x7f\x80\xff@#" };
+            for _ in 0..1 + rng.below(3) {
+                let at = rng.below(p.len());
+                p[at] = *rng.pick(foreign);
+            }
+            jobs.push(Job {
+                fam: FAMS[5],
+                class: 2,
+                mode: Some(mode),
+                level: if rng.chance(1, 4) { None } else { Some(rng.below(4)) },
+                version: if rng.chance(1, 2) { None } else { Some(1 + rng.below(12)) },
+                mask: if rng.chance(1, 2) { None } else { Some(rng.below(8)) },
+                len: p.len(),
+                payload: Some(p),
+                seed: mix(ctx.seed, k as u64),
+                ..Default::default()
+            });
+        }
+    }
     // no level given and more data than level Q can hold in version 40 (but not more than level L can):
     // the default is Q, so no symbol exists; a build that answers with a symbol of a lower level does
     // not "default to level Q"
@@ -141,6 +170,36 @@ fn observe_beyond_q(st: &mut Stats, job: &Job) {
         Outcome::Panic(p) => flag(st, ID, ("no-symbol".into(), format!("build panicked: {p}")), job, false),
         _ => {
             st.count("no_level_given_beyond_q_capacity_refused", 1);
+            st.distinct(job.key(&cfg.input));
+        }
+    }
+}
+
+/// family "forced-mode-outside-alphabet": nothing has to come back, but a returned QR code has to tell the truth
+fn observe_foreign(st: &mut Stats, job: &Job) {
+    let cfg = job.config();
+    match adapter::build(&cfg) {
+        Outcome::Ok(qr) => {
+            let m = adapter::matrix_of(&qr);
+            let reported = qr.mode.map(adapter::mode_no);
+            let name = |x: Option<usize>| x.map_or("None".to_string(), |v| tables::MODE_NAMES[v].to_string());
+            match decode::decode(&m) {
+                Ok(d) if !d.parsed.segments.is_empty() => {
+                    let phys = d.parsed.segments[0].mode;
+                    if reported != Some(phys) {
+                        flag(st, ID, ("mode-field".into(), format!("mode {} was forced on an input outside its alphabet and a QR code came back: it reports mode {}, its first mode indicator says {}", name(cfg.mode), name(reported), tables::MODE_NAMES[phys])), job, false);
+                    } else if reported != cfg.mode {
+                        flag(st, ID, ("mode-not-forced-one".into(), format!("mode {} was forced (on an input outside its alphabet) and a QR code came back reporting mode {}", name(cfg.mode), name(reported))), job, false);
+                    } else {
+                        st.count("foreign_input_symbols_with_truthful_mode", 1);
+                    }
+                }
+                Ok(_) => flag(st, ID, ("no-segment".into(), "forced mode outside the input's alphabet: the returned symbol decodes to zero segments".into()), job, false),
+                Err(e) => flag(st, ID, ("decode-failed".into(), format!("forced mode outside the input's alphabet: the returned symbol does not decode with the parameters it announces: {e}")), job, false),
+            }
+        }
+        _ => {
+            st.count("foreign_input_refused", 1);
             st.distinct(job.key(&cfg.input));
         }
     }
@@ -245,6 +304,9 @@ pub fn observe(ctx: &Ctx, st: &mut Stats, job: &Job) {
     if job.fam == FAMS[2] {
         return observe_beyond_q(st, job);
     }
+    if job.fam == FAMS[5] {
+        return observe_foreign(st, job);
+    }
     let exp = match symbol::expect(&cfg, &ctx.caps) {
         Ok(e) => e,
         Err(why) => {
@@ -332,7 +394,7 @@ pub fn run(ctx: &Ctx) -> Report {
     let st = pool::run(&jobs, ctx.remaining(), |st, job, _| observe(ctx, st, job));
     let mut rep = Report::new(
         st,
-        "jobs = every (version, level, mask) cell (1280, enumerated completely) with the 16 forced/automatic option combinations rotating (level only left automatic in Q cells), + builds with nothing forced per (version, class) + feedback-directed searches for unusually clean symbols (payload hill-climbed towards the lowest ranking score the crate reports, versions 1-3, automatic mask; every improvement checked) + option walks (one payload built 4-8 times in a row on one thread while one option at a time is forced, released or changed) + builds with no level given and more data than level Q holds in version 40 (any symbol returned there is not level Q); both 15-bit format copies are read at the ISO positions and must equal BCH(15,5)(level,mask)^0x5412 computed by polynomial division, both 18-bit version blocks must equal BCH(18,6)(version), and version/level/mask/mode/size fields must equal what the symbol physically encodes (mode from the decoded mode indicator), what was forced, and level Q by default; distinct key = (options, len, payload hash); every case non-trivial",
+        "jobs = every (version, level, mask) cell (1280, enumerated completely) with the 16 forced/automatic option combinations rotating (level only left automatic in Q cells), + builds with nothing forced per (version, class) + feedback-directed searches for unusually clean symbols (payload hill-climbed towards the lowest ranking score the crate reports, versions 1-3, automatic mask; every improvement checked) + option walks (one payload built 4-8 times in a row on one thread while one option at a time is forced, released or changed) + builds with no level given and more data than level Q holds in version 40 (any symbol returned there is not level Q) + forced Numeric/Alphanumeric mode on inputs outside the alphabet (nothing has to come back, but a QR code that does must report the mode its mode indicator carries and the one that was forced); both 15-bit format copies are read at the ISO positions and must equal BCH(15,5)(level,mask)^0x5412 computed by polynomial division, both 18-bit version blocks must equal BCH(18,6)(version), and version/level/mask/mode/size fields must equal what the symbol physically encodes (mode from the decoded mode indicator), what was forced, and level Q by default; distinct key = (options, len, payload hash); every case non-trivial",
     );
     rep.exhaustive = Some(true);
     rep.expected_sets = vec![("version_level_mask", 1280), ("level_mask_words", 32), ("version_words", 34), ("forced_option_combos", 16)];
